@@ -212,7 +212,32 @@ func mutateBalloonsCfg(r *verifrt.Rand, c *CfgSpec, m *machine.Machine) {
 		return
 	}
 	b.Types = append([]BalloonType(nil), b.Types...)
-	switch r.Intn(8) {
+	switch r.Intn(10) {
+	case 8:
+		// a balloon type's own memory pinning switch: unset / on / off
+		if len(b.Types) > 0 {
+			i := r.Intn(len(b.Types))
+			switch r.Intn(3) {
+			case 0:
+				b.Types[i].PinMemory = nil
+			case 1:
+				b.Types[i].PinMemory = boolp(true)
+			case 2:
+				b.Types[i].PinMemory = boolp(false)
+			}
+		} else {
+			c.PinMemory = !c.PinMemory
+		}
+	case 9:
+		// the preserve rule appears, changes or goes away
+		switch r.Intn(3) {
+		case 0:
+			b.PreserveLabel, b.PreserveName = "", ""
+		case 1:
+			b.PreserveLabel = verifrt.Pick(r, []string{"a0", "a1", "a2"})
+		case 2:
+			b.PreserveName = verifrt.Pick(r, []string{"c0", "c1", "c2"})
+		}
 	case 0:
 		c.PinCPU = !c.PinCPU
 		b.PinCPUNil = false
